@@ -7,7 +7,9 @@ Three-way comparison per step of a history of attribute operations on a fresh `T
      evaluated on it directly (`attrs_world.spec_check`: bounds, 16 KiB rule, size/mode, piece
      count, stored hashes == fresh SHA-1 of the current layout at the current piece length,
      `is_ready` ⇒ real `verify(path)` is True),
-  M  the Lean model `Attrs.apply` (state left behind by raising setters included),
+  M  the Lean model `Attrs.apply` (state left behind by raising setters included; the four filter
+     lists with slice / index assignment, append, extend, +=, del, clear as `MonitoredList` does
+     them, regular expressions as the shapes of `Attrs.Rx`),
   S  the decidable invariant `Attrs.Inv` evaluated by the driver on the model state,
 under the hypothesis `AllOkC` of the theorem `C09_inv_history_corrected` (`hypC`: every operation
 satisfies `OpOk`, or is a bound assignment directly followed by a corrective assignment of the same
@@ -24,17 +26,17 @@ K = W.K
 R = W.ROOT
 
 RULE = ('histories of attribute operations (path/files/filepaths setters and list mutations, '
-        'glob filter edits, regex filter edits incl. batch updates with an invalid pattern and held lists (no model), name, piece_size, piece_size_min/max, generate, comment) on a fresh '
+        'edits of the four filter lists: assignment (also of the value the list already has, of values with duplicates, x = x, x += [...]), slice and index assignment, append, extend, del, clear, batch updates with an invalid regular expression, through the attribute or a held list object; name, piece_size, piece_size_min/max, generate, comment) on a fresh '
         'Torrent over five content trees with the real default bounds: corpus + enumerated '
         '(hash-then-every-pair-of-operations, also from a piece length of 32 MiB under an explicit '
         'maximum followed by a bound reset, and bound-assignment-across-the-other-bound followed by '
-        'a re-assignment of that bound) + random (length <= 8 quick, <= 14 thorough); '
+        'a re-assignment of that bound; a filter list assigned, hashed, then assigned / edited again in every way) + random (length <= 8 quick, <= 14 thorough; filter-heavy histories concentrate on one or two lists so that the same list is assigned repeatedly); '
         'non-trivial = piece hashes were present before at least one operation other than '
         'generate/comment; distinct = distinct operation sequence.  calculate_piece_size: '
         'boundary sizes of every power of two and threshold, distinct = (size, min, max)')
 
 COMPARE = ['name', 'mode', 'length', 'files', 'path', 'pl', 'pieces', 'pmin', 'pmax', 'exGlobs',
-           'inGlobs', 'size', 'numPieces', 'listed', 'filepaths', 'ready', 'comment']
+           'inGlobs', 'exRegexs', 'inRegexs', 'size', 'numPieces', 'listed', 'filepaths', 'ready', 'comment']
 
 # ---------------------------------------------------------------------------------------------
 # known findings: matchers as narrow as the defects
@@ -67,29 +69,8 @@ def match_bound_across(case, observed, finding):
             and observed['pre']['pmin'] <= observed['pre']['pmax'])
 
 
-def match_attr_iadd(case, observed, finding):
-    """D09d: the first deviation is directly after an ATTRIBUTE-level `+=` on a filter list
-    (`t.exclude_globs += [...]`: extend, then the setter with the list itself) that left a
-    non-pattern (None) in a filter list whose items were all patterns before; a regex list
-    additionally raises TypeError from re.compile(None) before anything else changes (so hashes,
-    if present, are still there, and the files still follow the pattern that extend applied and the
-    setter then threw away).  `lst += [...]` on a local name, extend, assignment never match."""
-    codes = set(observed.get('codes', []))
-    pre = observed.get('pre') or {}
-    if observed['op']['k'] not in ('globIaddAttr', 'rxIaddAttr') or not pre.get('filterTypesOk'):
-        return False
-    if 'filter-list-holds-a-non-pattern' not in codes:
-        return False
-    if observed['op']['k'] == 'globIaddAttr':
-        return codes == {'filter-list-holds-a-non-pattern'} and observed.get('res') == 'ok'
-    return (observed.get('res') == 'TypeError' and 'undocumented-exception-TypeError' in codes
-            and codes <= {'filter-list-holds-a-non-pattern', 'undocumented-exception-TypeError',
-                          'pieces-survived-filter-change', 'files-do-not-follow-filters'})
-
-
 MATCHERS = {
     'bound_assigned_across_other_bound': match_bound_across,
-    'attribute_level_iadd_on_filter_list': match_attr_iadd,
 }
 
 # ---------------------------------------------------------------------------------------------
@@ -101,6 +82,116 @@ PATHS = [R + ['A'], R + ['A'], R + ['B'], R + ['F5'], R + ['F5'], R + ['S'], R +
          R + ['A', 'sub'], R + ['A', 'a'], R + ['A', '.hid'], R + ['Z'], None]
 FAKE_SIZES = [0, 0, 1, K, 3 * K, 5 * K + 1, 2 ** 23 + 1, 2 ** 30, 2 ** 30 + 1, 8 * 2 ** 30 + 1,
               16 * 2 ** 30 + 1, 2 ** 36 + 5]
+
+
+RX_VALID = [r'\.tmp$', r'/sub/', r'a$', r'(?i)\.TMP$', r'[bd]$', r'x$', r'^A/sub', r'f$', r'e\.']
+RX_INVALID = ['(', '[a', '*x', 'a{2,1}']
+
+# ---------------------------------------------------------------------------------------------
+# operations on the four filter lists.  The generator keeps a copy `cur[(kind, inc)]` of each list
+# (attrs_world.ref_list: Python's list semantics, every item once) ONLY to choose interesting
+# arguments: the value the list already has, items that are present, indexes at and beyond the
+# ends.  It is not an oracle.
+
+
+def new_cur():
+    return {(kind, inc): [] for kind in ('glob', 'rx') for inc in (False, True)}
+
+
+def _fl(kind, suffix, inc=False, held=False, vs=None, v=None, **kw):
+    op = dict(k=kind + suffix, inc=inc, held=held, **kw)
+    if vs is not None:
+        op['gs' if kind == 'glob' else 'ps'] = [x for x in vs]
+    if v is not None:
+        op['g' if kind == 'glob' else 'p'] = v
+    return op
+
+
+FL_KINDS = ['Append'] * 3 + ['Extend'] * 2 + ['Iadd'] + ['Set'] * 4 + ['SetSelf', 'SliceSelf'] + ['IaddAttr'] * 2 + \
+           ['SetSlice'] * 3 + ['SetIndex'] * 3 + ['Del', 'Clear']
+
+
+def g_flist_op(rng, cur, kind, inc, held):
+    pool = GLOBS if kind == 'glob' else RX_VALID
+    l = cur[(kind, inc)]
+
+    def val(p_present=0.45):
+        return rng.choice(l) if l and rng.random() < p_present else rng.choice(pool)
+
+    def batch(lo, hi, p_bad):
+        vs = [val() for _ in range(rng.randint(lo, hi))]
+        if vs and rng.random() < 0.25:
+            vs.insert(rng.randint(0, len(vs)), rng.choice(vs))          # a duplicate inside the new value
+        if kind == 'rx' and rng.random() < p_bad:
+            vs.insert(rng.randint(0, len(vs)), rng.choice(RX_INVALID))
+        return vs
+
+    suffix = rng.choice(FL_KINDS)
+    if suffix == 'Append':
+        v = rng.choice(RX_INVALID) if kind == 'rx' and rng.random() < 0.2 else val()
+        op = _fl(kind, suffix, inc, held, v=v)
+    elif suffix in ('Extend', 'Iadd'):
+        op = _fl(kind, suffix, inc, held, vs=batch(0, 3, 0.4))
+    elif suffix == 'Set':
+        r = rng.random()
+        if r < 0.3:
+            vs = list(l)                                               # the value the list already has
+        elif r < 0.4:
+            vs = list(reversed(l))                                     # the same items in another order
+        elif r < 0.55:
+            vs = list(l) + [val(0.2)]                                  # the old value and one more
+        elif r < 0.65:
+            vs = [v for v in l if rng.random() < 0.6] + batch(0, 1, 0.0)
+        else:
+            vs = batch(0, 3, 0.3)
+        op = _fl(kind, suffix, inc, False, vs=vs)
+    elif suffix in ('SetSelf', 'SliceSelf'):
+        op = _fl(kind, suffix, inc, held)
+    elif suffix == 'IaddAttr':
+        op = _fl(kind, suffix, inc, False, vs=batch(0, 2, 0.25))
+    elif suffix == 'SetSlice':
+        n = len(l)
+        a = rng.randint(0, n + 1)
+        b = rng.choice([None, a, a, a + 1, n, rng.randint(0, n + 1)])
+        op = _fl(kind, suffix, inc, held, vs=batch(0, 3, 0.3), a=a, b=b)
+    elif suffix == 'SetIndex':
+        n = len(l)
+        v = rng.choice(RX_INVALID) if kind == 'rx' and rng.random() < 0.15 else val(0.6)
+        op = _fl(kind, suffix, inc, held, v=v, i=rng.randint(-n - 1, n))
+    elif suffix == 'Del':
+        op = _fl(kind, suffix, inc, held, i=rng.randrange(4))
+    else:
+        op = _fl(kind, suffix, inc, held)
+    valid = W.rx_valid if kind == 'rx' else (lambda v: True)
+    cur[(kind, inc)] = W.ref_list(l, W.flist(op), valid)[0]
+    return op
+
+
+def g_filter_history(rng, maxlen):
+    """content, (hashing), then mostly edits of one or two of the four filter lists (so that the
+    same list is assigned again and again), hashing in between"""
+    cur = new_cur()
+    ops = [{'k': 'setPath', 'p': rng.choice([R + ['A'], R + ['A'], R + ['A'], R + ['B'], R + ['S'], R + ['F5']])}]
+    if rng.random() < 0.5:
+        ops.append({'k': 'generate'})
+    focus = [(rng.choice(['glob', 'rx', 'rx']), rng.random() < 0.3) for _ in range(rng.choice([1, 1, 2]))]
+    n = rng.randint(3, maxlen)
+    while len(ops) < n:
+        r = rng.random()
+        if r < 0.62:
+            kind, inc = rng.choice(focus) if rng.random() < 0.9 else (rng.choice(['glob', 'rx']), rng.random() < 0.5)
+            ops.append(g_flist_op(rng, cur, kind, inc, rng.random() < 0.5))
+        elif r < 0.82:
+            ops.append({'k': 'generate'})
+        elif r < 0.88:
+            ops.append({'k': 'setPath', 'p': rng.choice([R + ['A'], R + ['A'], R + ['S'], R + ['B'], None])})
+        elif r < 0.93:
+            ops.append({'k': 'setPieceSize', 'v': K * rng.choice([1, 2, 3, 4])})
+        elif r < 0.97:
+            ops.append({'k': 'setFiles', 'fs': [[['N', 'a'], K], [['N', 'b.tmp'], 5], [['N', 'sub', 'c'], K]]})
+        else:
+            ops.append({'k': 'setComment', 'c': 'x'})
+    return ops
 
 
 def g_files(rng):
@@ -123,11 +214,11 @@ def g_files(rng):
     return [[['/', 'abs', 'a'], s()], [['N', 'b'], s()]]     # PathError
 
 
-def g_op(rng, globs, wide=True):
-    """one random operation; `globs` = generator-side copy of the two filter lists"""
+def g_op(rng, cur, wide=True):
+    """one random operation; `cur` = generator-side copy of the four filter lists"""
     c = rng.choice(['setPath', 'setPath', 'setPath', 'setFiles', 'filesDel', 'filesAppend',
                     'filesClear', 'setFilepaths', 'fpDel', 'fpAppend', 'fpClear',
-                    'glob', 'glob', 'setName', 'setPieceSize', 'setPieceSize', 'setPieceSize',
+                    'flist', 'flist', 'flist', 'setName', 'setPieceSize', 'setPieceSize', 'setPieceSize',
                     'setMin', 'setMax', 'generate', 'generate', 'generate', 'setComment'])
     if c == 'setPath':
         p = rng.choice(PATHS if rng.random() < 0.97 else [R + ['big']])
@@ -153,29 +244,8 @@ def g_op(rng, globs, wide=True):
                                                   R + ['Z'], R + ['A', 'a'], R + ['A', '.hid']])}
     if c == 'fpClear':
         return {'k': 'fpClear'}
-    if c == 'glob':
-        inc = rng.random() < 0.35
-        cur = globs[inc]
-        kind = rng.choice(['globAppend', 'globAppend', 'globDel', 'globClear', 'globSet'])
-        if kind == 'globAppend':
-            g = rng.choice(GLOBS)
-            if g not in cur:
-                cur.append(g)
-            return {'k': 'globAppend', 'inc': inc, 'g': g}
-        if kind == 'globDel':
-            i = rng.randrange(4)
-            if cur:
-                del cur[i % len(cur)]
-            return {'k': 'globDel', 'inc': inc, 'i': i}
-        if kind == 'globClear':
-            cur.clear()
-            return {'k': 'globClear', 'inc': inc}
-        # `lst[:] = value` is only modelled for duplicate-free values disjoint from the current list
-        cand = [g for g in GLOBS if g not in cur]
-        rng.shuffle(cand)
-        gs = cand[:rng.randint(0, min(2, len(cand)))]
-        cur[:] = gs
-        return {'k': 'globSet', 'inc': inc, 'gs': gs}
+    if c == 'flist':
+        return g_flist_op(rng, cur, 'glob' if rng.random() < 0.6 else 'rx', rng.random() < 0.35, rng.random() < 0.3)
     if c == 'setName':
         return {'k': 'setName', 'n': rng.choice([None, 'Foo', 'N', 'A'])}
     if c == 'setPieceSize':
@@ -218,7 +288,7 @@ def g_op(rng, globs, wide=True):
 
 def g_history(rng, maxlen):
     n = rng.randint(1, maxlen)
-    globs = {False: [], True: []}
+    cur = new_cur()
     wide = rng.random() < 0.5
     ops = []
     # most histories start by pointing at content so that hashing happens early
@@ -229,7 +299,7 @@ def g_history(rng, maxlen):
         if rng.random() < 0.7:
             ops.append({'k': 'generate'})
     while len(ops) < n:
-        ops.append(g_op(rng, globs, wide))
+        ops.append(g_op(rng, cur, wide))
     return ops[:max(n, 1)]
 
 
@@ -326,98 +396,11 @@ def enumerated(ctx):
 
 
 # ---------------------------------------------------------------------------------------------
-# regular-expression filter lists, batch updates that fail half-way, held filter lists.
-# No Lean model: these histories are implementation-vs-specification checks (spec_check +
-# attrs_world.filter_codes on the real object), outside the hypothesis of the theorems.
-
-RX_VALID = [r'\.tmp$', r'/sub/', r'a$', r'(?i)\.TMP$', r'[bd]$', r'x$', r'^A/sub', r'f$', r'e\.']
-RX_INVALID = ['(', '[a', '*x', 'a{2,1}']
+# enumerated histories on the filter lists
 
 
 def _rx(k, inc=False, held=False, **kw):
     return dict(k=k, inc=inc, held=held, **kw)
-
-
-def rx_track(cur, op):
-    """generator-side copy of one regex list under Python's list semantics of the unchanged code
-    (only used to keep `lst[a:b] = value` / attribute assignment inside the modelled domain:
-    duplicate-free values disjoint from the current list)"""
-    k = op['k']
-    if k == 'rxAppend':
-        if W.rx_valid(op['p']) and op['p'] not in cur:
-            cur.append(op['p'])
-    elif k in ('rxExtend', 'rxIadd'):
-        for p in op['ps']:
-            if not W.rx_valid(p):
-                break
-            if p not in cur:
-                cur.append(p)
-    elif k == 'rxSet':
-        if all(W.rx_valid(p) for p in op['ps']):
-            cur[:] = op['ps']
-    elif k == 'rxSetSlice':
-        if all(W.rx_valid(p) for p in op['ps']):
-            cur[op['a']:op['b']] = op['ps']
-    elif k == 'rxDel':
-        if cur:
-            del cur[op['i'] % len(cur)]
-    elif k == 'rxClear':
-        cur.clear()
-
-
-def g_rx_op(rng, cur, inc, held):
-    kind = rng.choice(['rxAppend', 'rxAppend', 'rxExtend', 'rxExtend', 'rxIadd', 'rxSet', 'rxSetSlice', 'rxDel', 'rxClear'])
-    fresh = [p for p in RX_VALID if p not in cur]
-    rng.shuffle(fresh)
-    def batch(pool, lo, hi, p_bad):
-        ps = list(pool[:rng.randint(lo, hi)])
-        if rng.random() < p_bad:
-            ps.insert(rng.randint(0, len(ps)), rng.choice(RX_INVALID))
-        return ps
-    if kind == 'rxAppend':
-        r = rng.random()
-        op = _rx(kind, inc, held, p=rng.choice(RX_INVALID) if r < 0.25 else rng.choice(RX_VALID))
-    elif kind in ('rxExtend', 'rxIadd'):
-        pool = [rng.choice(RX_VALID) for _ in range(3)]
-        op = _rx(kind, inc, held, ps=batch(pool, 0, 3, 0.5))
-    elif kind == 'rxSet':
-        op = _rx(kind, inc, False, ps=batch(fresh, 0, 2, 0.35))
-    elif kind == 'rxSetSlice':
-        n = len(cur)
-        a = rng.randint(0, n)
-        op = _rx(kind, inc, held, a=a, b=a, ps=batch(fresh, 1, 2, 0.4))      # insertion of new patterns
-    elif kind == 'rxDel':
-        op = _rx(kind, inc, held, i=rng.randrange(4))
-    else:
-        op = _rx(kind, inc, held)
-    rx_track(cur, op)
-    return op
-
-
-def g_rx_history(rng, maxlen):
-    cur = {False: [], True: []}
-    globs = {False: [], True: []}
-    ops = [{'k': 'setPath', 'p': rng.choice([R + ['A'], R + ['A'], R + ['A'], R + ['B'], R + ['S'], R + ['F5']])}]
-    if rng.random() < 0.5:
-        ops.append({'k': 'generate'})
-    n = rng.randint(3, maxlen)
-    while len(ops) < n:
-        r = rng.random()
-        if r < 0.6:
-            inc = rng.random() < 0.3
-            ops.append(g_rx_op(rng, cur[inc], inc, rng.random() < 0.5))
-        elif r < 0.8:
-            ops.append({'k': 'generate'})
-        elif r < 0.86:
-            ops.append({'k': 'setPath', 'p': rng.choice([R + ['A'], R + ['A'], R + ['S'], R + ['B'], None])})
-        elif r < 0.92:
-            ops.append({'k': 'setPieceSize', 'v': K * rng.choice([1, 2, 3, 4])})
-        elif r < 0.97:
-            ops.append(g_op(rng, globs, True) if False else
-                       {'k': 'globAppend', 'inc': rng.random() < 0.3, 'g': rng.choice(GLOBS)})
-        else:
-            ops.append({'k': 'setComment', 'c': 'x'})
-    return ops
 
 
 def enumerated_rx(ctx):
@@ -453,7 +436,7 @@ def enumerated_rx(ctx):
                             if ctx.thorough or (held and a is then[0]):
                                 for b in then[:8:2]:
                                     out.append(pre + [f] + mid + [a, {'k': 'generate'}, b])
-    # attribute-level `+=` (getter, extend, then the setter with the list itself): open finding D09d
+    # attribute-level `+=` (getter, extend, then the setter with the list itself): former finding D09d
     for pre in ([{'k': 'setPath', 'p': R + ['A']}], [{'k': 'setPath', 'p': R + ['A']}, {'k': 'generate'}]):
         for inc in (False, True):
             for a in ({'k': 'globIaddAttr', 'inc': inc, 'gs': [['suffix', '.tmp']]}, {'k': 'globIaddAttr', 'inc': inc, 'gs': []},
@@ -465,29 +448,46 @@ def enumerated_rx(ctx):
     return out
 
 
-def rx_cases(ctx, scale=1.0):
-    cases = []
-    d = os.path.join(common.CORPUS_DIR, 'C09')
-    if os.path.isdir(d):
-        for fn in sorted(os.listdir(d)):
-            if fn.endswith('.json'):
-                j = json.load(open(os.path.join(d, fn)))
-                if _is_rx(j['ops']):
-                    cases.append({'ops': j['ops'], 'src': 'corpus:' + fn})
-    for f in ctx.open_findings():
-        w = f.get('witness', {})
-        if 'ops' in w and _is_rx(w['ops']):
-            cases.append({'ops': w['ops'], 'src': 'witness:' + f['id'], 'witness': f['id']})
-    for ops in enumerated_rx(ctx):
-        cases.append({'ops': ops, 'src': 'enumerated-rx'})
-    maxlen = 12 if ctx.thorough else 8
-    for _ in range(int(ctx.n(700, 40000) * scale)):
-        cases.append({'ops': g_rx_history(ctx.rng, maxlen), 'src': 'random-rx'})
-    return cases
-
-
-def _is_rx(ops):
-    return any(o['k'] in W.RX_OPS or o['k'] == 'globIaddAttr' for o in ops)
+def enumerated_reassign(ctx):
+    """A filter list gets a value, (hashing), then the same list is assigned / edited again in
+    every way that goes through `MonitoredList.__setitem__` or the property setter: the value it
+    already has, `x = x`, `l[:] = l`, `x += […]` (nothing / a present / a new item), index
+    assignment of the same / another present / a new item at valid, negative and out-of-range
+    positions, slice assignment that repeats a kept item, a value with duplicates, a rejected
+    value — on each of the four lists, through the attribute and through a held list object."""
+    out = []
+    vals = {'glob': (['suffix', '.tmp'], ['suffix', 'a'], ['infix', '/sub/']), 'rx': (r'e\.', r'a$', r'/sub/')}
+    for kind in ('glob', 'rx'):
+        v1, v2, v3 = vals[kind]
+        for inc in (False, True):
+            firsts = [[_fl(kind, 'Set', inc, vs=[v1])], [_fl(kind, 'Set', inc, vs=[v1, v2])],
+                      [_fl(kind, 'Append', inc, v=v1)], [_fl(kind, 'IaddAttr', inc, vs=[v1, v2])]]
+            for held in (False, True):
+                second = [
+                    _fl(kind, 'Set', inc, vs=[v1]), _fl(kind, 'Set', inc, vs=[v1, v2]), _fl(kind, 'Set', inc, vs=[v2, v1]),
+                    _fl(kind, 'SetSelf', inc), _fl(kind, 'SliceSelf', inc, held),
+                    _fl(kind, 'IaddAttr', inc, vs=[]), _fl(kind, 'IaddAttr', inc, vs=[v1]), _fl(kind, 'IaddAttr', inc, vs=[v3]),
+                    _fl(kind, 'SetIndex', inc, held, v=v1, i=0), _fl(kind, 'SetIndex', inc, held, v=v2, i=0),
+                    _fl(kind, 'SetIndex', inc, held, v=v3, i=-1), _fl(kind, 'SetIndex', inc, held, v=v1, i=-1),
+                    _fl(kind, 'SetIndex', inc, held, v=v1, i=2), _fl(kind, 'SetIndex', inc, held, v=v3, i=-3),
+                    _fl(kind, 'SetSlice', inc, held, vs=[v1], a=1, b=None), _fl(kind, 'SetSlice', inc, held, vs=[v2, v2], a=0, b=1),
+                    _fl(kind, 'SetSlice', inc, held, vs=[v3, v1, v3], a=1, b=1), _fl(kind, 'Set', inc, vs=[v2, v1, v2, v3, v1]),
+                ]
+                if kind == 'rx':
+                    second += [_fl(kind, 'Set', inc, vs=[v1, '(']), _fl(kind, 'SetIndex', inc, held, v='[a', i=0),
+                               _fl(kind, 'SetIndex', inc, held, v='(', i=7), _fl(kind, 'SetSlice', inc, held, vs=[v1, '*x'], a=0, b=None)]
+                if held and not ctx.thorough:
+                    second = [o for o in second if o.get('held')]        # the attribute route was enumerated with held=False
+                for pre in ([{'k': 'setPath', 'p': R + ['A']}], [{'k': 'setPath', 'p': R + ['A']}, {'k': 'generate'}]):
+                    for f in firsts:
+                        for mid in ([], [{'k': 'generate'}]):
+                            if not ctx.thorough and inc and not mid:
+                                continue
+                            for a in second:
+                                out.append(pre + f + mid + [a])
+                                if ctx.thorough:
+                                    out.append(pre + f + mid + [a, {'k': 'generate'}, _fl(kind, 'Set', inc, vs=[v1])])
+    return out
 
 
 def corpus_cases(ctx):
@@ -497,11 +497,10 @@ def corpus_cases(ctx):
         for fn in sorted(os.listdir(d)):
             if fn.endswith('.json'):
                 j = json.load(open(os.path.join(d, fn)))
-                if not _is_rx(j['ops']):          # regex histories have no model: see rx_cases
-                    out.append({'ops': j['ops'], 'src': 'corpus:' + fn})
+                out.append({'ops': j['ops'], 'src': 'corpus:' + fn})
     for f in ctx.open_findings():
         w = f.get('witness', {})
-        if 'ops' in w and not _is_rx(w['ops']):
+        if 'ops' in w:
             out.append({'ops': w['ops'], 'src': 'witness:' + f['id'], 'witness': f['id']})
     return out
 
@@ -510,9 +509,16 @@ def gen_cases(ctx, scale=1.0):
     cases = corpus_cases(ctx)
     for ops in enumerated(ctx):
         cases.append({'ops': ops, 'src': 'enumerated'})
+    for ops in enumerated_rx(ctx):
+        cases.append({'ops': ops, 'src': 'enumerated-rx'})
+    for ops in enumerated_reassign(ctx):
+        cases.append({'ops': ops, 'src': 'enumerated-reassign'})
     maxlen = 14 if ctx.thorough else 8
     for _ in range(int(ctx.n(2600, 110000) * scale)):
         cases.append({'ops': g_history(ctx.rng, maxlen), 'src': 'random'})
+    maxlen = 12 if ctx.thorough else 8
+    for _ in range(int(ctx.n(1200, 40000) * scale)):
+        cases.append({'ops': g_filter_history(ctx.rng, maxlen), 'src': 'random-filters'})
     return cases
 
 
@@ -538,7 +544,11 @@ def _diff(model, obs):
 
 def evaluate(ctx, drv, cases):
     env = W.env_json()
-    replies = drv.run([{'op': 'c09.run', 'env': env, 'ops': c['ops']} for c in cases])
+    replies = drv.run([{'op': 'c09.run', 'env': env, 'ops': [W.to_driver(o) for o in c['ops']]} for c in cases])
+    for rep in replies:
+        rep['init'] = W.model_state(rep['init'])
+        for ms in rep['steps']:
+            ms['state'] = W.model_state(ms['state'])
     results = common.pmap(_run_chunk, common.split(cases, common.NPROC * 4))
     flat = [r for chunk in results for r in chunk]
     assert len(flat) == len(cases)
@@ -563,12 +573,14 @@ def evaluate(ctx, drv, cases):
         ctx.sample({'case': case, 'model_last': msteps[-1]['state'] if msteps else None,
                     'impl_last': impl['steps'][-1] if impl['steps'] else None}, limit=4)
         reproduced = False
+        failed_batch = False
         for k, st in enumerate(impl['steps']):
             ms = msteps[k]
             op = ops[k]
             ctx.dist['op/' + op['k']] += 1
-            if not ms['wf']:
-                ctx.machinery_error('generator produced a globSet outside the modelled domain', case)
+            if not ms['fok']:
+                ctx.machinery_error('model state violates FiltersOk although C09_filters_ok_history is proved',
+                                    {'case': case, 'step': k})
                 break
             if ms['hypC'] and not ms['inv']:
                 ctx.machinery_error('model state violates Inv under AllOkC although C09_inv_history_corrected is proved',
@@ -612,6 +624,9 @@ def evaluate(ctx, drv, cases):
                 break
             if st['obs']['ready']:
                 ctx.dist['ready-and-verified'] += 1
+            f = W.flist(op)
+            if f is not None:
+                failed_batch = _count_flist(ctx, f, op, st, impl['steps'][k - 1]['obs'] if k else impl['init'], failed_batch)
             if op['k'] in ('setMin', 'setMax') and op['v'] is None:
                 # region of the repaired D09c: a bound reset with a piece length present (clamp runs)
                 pre = impl['steps'][k - 1]['obs'] if k else impl['init']
@@ -627,46 +642,43 @@ def evaluate(ctx, drv, cases):
     ctx.corr_breaks.sort(key=lambda v: len(v['case'].get('ops', ())) if isinstance(v['case'], dict) else 0)
 
 
-def evaluate_rx(ctx, cases):
-    """regex-filter histories: implementation vs specification only (no model, outside `hypC`)"""
-    results = common.pmap(_run_chunk, common.split(cases, common.NPROC * 4))
-    flat = [r for chunk in results for r in chunk]
-    assert len(flat) == len(cases)
-    for c, impl in zip(cases, flat):
-        ops = c['ops']
-        case = {'ops': ops, 'src': c['src']}
-        steps = impl['steps']
-        nontrivial = any(k and steps[k - 1]['obs'] and steps[k - 1]['obs']['pieces'] is not None
-                         and ops[k]['k'] not in ('generate', 'setComment') for k in range(len(steps)))
-        ctx.case(key=json.dumps(ops, sort_keys=True), nontrivial=nontrivial, kind='rx-history/' + c['src'].split(':')[0])
-        ctx.dist['outside-hyp:no-model(regex-filters)'] += 1
-        failed_batch = False
-        for k, st in enumerate(steps):
-            op = ops[k]
-            ctx.dist['op/' + op['k']] += 1
-            if st['dev']:
-                pre = steps[k - 1]['obs'] if k else impl['init']
-                observed = {'step': k, 'op': op, 'codes': st['dev'], 'res': st['res'], 'pre': pre,
-                            'post': st['obs'], 'hyp': False}
-                fid = ctx.violation('after operation %d (%s) the torrent violates C09: %s'
-                                    % (k, op['k'], ', '.join(st['dev'])), case,
-                                    'the listed files follow the filter lists, hashes do not survive a change, '
-                                    'an invalid regular expression is rejected with re.error',
-                                    observed, finding_matchers=MATCHERS)
-                if fid is not None and fid == c.get('witness'):
-                    c['reproduced'] = True
-                break
-            if st['res'] == 're.error':
-                ctx.dist['rx-rejected/' + op['k']] += 1
-                failed_batch = failed_batch or op['k'] in ('rxExtend', 'rxIadd', 'rxSet', 'rxSetSlice')
-            elif failed_batch and op['k'] in W.RX_OPS:
-                ctx.dist['rx-edit-after-failed-batch' + ('/held' if op.get('held') else '')] += 1
-            if st['obs']['ready']:
-                ctx.dist['ready-and-verified'] += 1
-        if c.get('witness') and not c.get('reproduced') and c['witness'] not in ctx.not_reproduced:
-            ctx.not_reproduced.append(c['witness'])
-        ctx.sample({'case': case, 'impl_last': steps[-1] if steps else None}, limit=6)
-    ctx.violations.sort(key=lambda v: len(v['case'].get('ops', ())) if isinstance(v['case'], dict) else 0)
+def _count_flist(ctx, f, op, st, pre, failed_batch):
+    """how often the interesting regions of the filter-list operations are reached (evidence)"""
+    key = W.flist_key(f)
+    hashed = '/hashed' if pre['pieces'] is not None else ''
+    if st['res'] in ('re.error', 'IndexError'):
+        ctx.dist['flist-rejected/%s/%s' % (st['res'], f['o'])] += 1
+        if st['res'] == 're.error' and f['o'] in ('extend', 'iaddAttr', 'setSlice'):
+            failed_batch = True
+        return failed_batch
+    if st['res'] != 'ok':
+        return failed_batch
+    if failed_batch and f['kind'] == 'rx':
+        ctx.dist['rx-edit-after-failed-batch' + ('/held' if f['held'] else '')] += 1
+    if f['o'] in ('setSlice', 'setIndex'):
+        vs = f['vs'] if 'vs' in f else [f['v']]
+        if f['held']:
+            ctx.dist['flist/item-or-slice-assignment-through-held-list' + hashed] += 1
+        if vs and st['obs'][key] == pre[key]:
+            ctx.dist['flist/assigned-value-leaves-list-equal' + hashed] += 1        # e.g. the same value twice
+        if f['suffix'] == 'Set' and vs and vs == pre[key]:
+            ctx.dist['flist/attribute-assigned-the-value-it-has' + hashed] += 1
+        spliced = list(pre[key])
+        if f['o'] == 'setSlice':
+            spliced[f['a']:f['b']] = vs
+        else:
+            spliced[f['i']] = vs[0]
+        if len(W.dedup_first(spliced)) < len(spliced):
+            ctx.dist['flist/assignment-drops-duplicates' + hashed] += 1
+    elif f['o'] == 'assignSelf':
+        ctx.dist['flist/assign-self(%s)%s' % ('x=x' if f['route'] == 'attr' else 'l[:]=l', hashed)] += 1
+        if pre[key]:
+            ctx.dist['flist/assign-self-nonempty' + hashed] += 1
+    elif f['o'] == 'iaddAttr':
+        ctx.dist['flist/attribute-iadd' + hashed] += 1
+        if pre[key] or f['vs']:
+            ctx.dist['flist/attribute-iadd-nonempty' + hashed] += 1
+    return failed_batch
 
 
 def calc_cases(ctx):
@@ -724,16 +736,15 @@ def run(ctx, drv):
         'file system = the fixed content world (no concurrent change of the content between operations)',
         'File sizes are non-negative; paths are ASCII without separators inside components; listed paths are pairwise distinct',
         'relative File paths do not exist below the current directory (the empty-file filter of filter_files looks there); content trees contain no empty files',
-        'glob patterns of the forms *s and *s* (fnmatch translated by hand) in the model; regex filter lists (valid/invalid patterns, failing batch updates, held lists) are exercised implementation-vs-specification only, without a model (counter outside-hyp:no-model(regex-filters))',
-        're.error is the documented exception of the regex filter lists; patterns are insensitive to the basepath.parent/filepath prefix quirk of filter_files',
-        'lst[:] = value on a filter list only with duplicate-free values disjoint from the current list (MonitoredList slice assignment is C16)',
+        'glob patterns of the forms *s and *s* (fnmatch translated by hand) and regular expressions of five shapes (escaped literal, literal$, (?i)literal$, ^literal, [class]$) in the model; an invalid regular expression is any text re.compile rejects',
+        're.error is the documented exception of the regex filter lists, IndexError that of lst[i] = v; the independent files-follow-filters clause uses patterns that are insensitive to the basepath.parent/filepath prefix quirk of filter_files (the model mirrors the quirk)',
+        'slice assignment on a filter list with non-negative bounds or an open end and step 1; index assignment with any integer',
         'calculate_piece_size: float log2/pow modelled on integers; compared for sizes < 2^40',
         'generate() stores the SHA-1 chunks of the current layout (C01) - checked here by an independent re-hash of the files',
         'is_ready ⇒ verify: C02 for the verification itself; here the real verify(path) is run',
     ]
     ctx.notes['trusted_base'] = ['harness/impl/attrs_world.py: projection of the real Torrent and the implementation-side evaluation of C09']
     evaluate_calc(ctx, drv, calc_cases(ctx))
-    evaluate_rx(ctx, rx_cases(ctx))
     evaluate(ctx, drv, gen_cases(ctx))
     ctx.exhaustive = False
 
@@ -752,9 +763,7 @@ def search(ctx, drv):
                     seeds.append({'ops': p + ops[-1:] + [a], 'src': 'search'})
     evaluate(ctx, drv, seeds)
     if not ctx.violations:
-        evaluate_rx(ctx, [c for c in rx_cases(ctx, scale=2.0) if c['src'] == 'random-rx'])
-    if not ctx.violations:
-        evaluate(ctx, drv, [c for c in gen_cases(ctx, scale=2.0) if c['src'] == 'random'])
+        evaluate(ctx, drv, [c for c in gen_cases(ctx, scale=2.0) if c['src'] in ('random', 'random-filters')])
 
 
 def replay(ctx, drv, rp):
@@ -764,9 +773,6 @@ def replay(ctx, drv, rp):
         evaluate_calc(ctx, drv, [(cc['size'], cc['min'], cc['max'])])
     else:
         ctx.findings = []      # a replay reports the raw verdict, known findings do not mask it
-        if _is_rx(c['ops']):
-            evaluate_rx(ctx, [{'ops': c['ops'], 'src': c.get('src', 'replay')}])
-        else:
-            evaluate(ctx, drv, [{'ops': c['ops'], 'src': c.get('src', 'replay')}])
+        evaluate(ctx, drv, [{'ops': c['ops'], 'src': c.get('src', 'replay')}])
     return {'fails': bool(ctx.violations or ctx.corr_breaks), 'violations': ctx.violations,
             'correspondence_breaks': ctx.corr_breaks}
